@@ -23,6 +23,8 @@ TStep ==
      \/ Ev.ev = "ret" /\ Ev.kind \in {"reply", "secop"} /\ RetReply(Ev.i, Ev.gid)
      \/ Ev.ev = "ret" /\ Ev.kind = "timeout" /\ RetTimeout(Ev.i, Ev.dt)
      \/ Ev.ev = "ret" /\ Ev.kind = "connerr" /\ RetConnErr(Ev.i)
+     \* a caller arriving after the loss: its reconnect attempt is refused (communication error, no request sent)
+     \/ Ev.ev = "ret" /\ Ev.kind = "secop" /\ Ev.gid = 0 /\ RetRefused(Ev.i)
      \/ Ev.ev = "ret" /\ Ev.kind = "timeout" /\ Dev_TimeoutStalePark(Ev.i)
      \/ Ev.ev = "ret" /\ Ev.kind = "timeout" /\ Dev_TimeoutLostInTxq(Ev.i)
      \/ Ev.ev = "disc_ret" /\ Ev.exc = "" /\ DiscRetOK
